@@ -177,23 +177,29 @@ func producers() []func() (produced, error) {
 	}
 	// close reason
 	for _, side := range []ws.State{ws.StateServerSide, ws.StateClientSide} {
-		side := side
-		out = append(out, func() (produced, error) {
-			body := ws.NewCloseFrameBody(1000, "going away now, bye")
-			wire := body
-			h := ws.Header{Fin: true, OpCode: ws.OpClose, Length: int64(len(body))}
-			if side.ServerSide() {
-				h.Masked, h.Mask = true, [4]byte{1, 2, 3, 4}
-				wire = refmodel.XOR(body, h.Mask, 0)
-			}
-			err := wsutil.ControlHandler{Src: bytes.NewReader(wire), Dst: env.NewDst(), State: side}.Handle(h)
-			ce, ok := err.(wsutil.ClosedError)
-			if !ok {
-				return produced{}, fmt.Errorf("no ClosedError: %v", err)
-			}
-			cp := &ce
-			return produced{name: fmt.Sprintf("HandleClose/state%d", side), expect: `1000 "going away now, bye"`, live: func() string { return fmt.Sprintf("%d %q", cp.Code, strings.Clone(cp.Reason)) }}, nil
-		})
+		for _, rl := range []int{19, 1, 57, 58, 59, 60, 61, 62, 63, 100, 123} {
+			side, rl := side, rl
+			out = append(out, func() (produced, error) {
+				reason := "going away now, bye"
+				if rl != 19 {
+					reason = strings.Repeat("going away now, bye ", 7)[:rl]
+				}
+				body := ws.NewCloseFrameBody(1000, reason)
+				wire := body
+				h := ws.Header{Fin: true, OpCode: ws.OpClose, Length: int64(len(body))}
+				if side.ServerSide() {
+					h.Masked, h.Mask = true, [4]byte{1, 2, 3, 4}
+					wire = refmodel.XOR(body, h.Mask, 0)
+				}
+				err := wsutil.ControlHandler{Src: bytes.NewReader(wire), Dst: env.NewDst(), State: side}.Handle(h)
+				ce, ok := err.(wsutil.ClosedError)
+				if !ok {
+					return produced{}, fmt.Errorf("no ClosedError: %v", err)
+				}
+				cp := &ce
+				return produced{name: fmt.Sprintf("HandleClose/state%d/reason-of-%d-bytes", side, rl), expect: fmt.Sprintf("1000 %q", reason), live: func() string { return fmt.Sprintf("%d %q", cp.Code, strings.Clone(cp.Reason)) }}, nil
+			})
+		}
 	}
 	// message payloads
 	for _, n := range []int{1, 127, 128, 129, 300, 4096, 4097} {
@@ -323,8 +329,12 @@ func recyclers() []recycler {
 			}
 		}},
 		{"HandleClose-other-reason", func(*produced) {
-			body := ws.NewCloseFrameBody(1001, "A DIFFERENT REASON!")
-			wsutil.ControlHandler{Src: bytes.NewReader(body), Dst: env.NewDst(), State: ws.StateClientSide}.Handle(ws.Header{Fin: true, OpCode: ws.OpClose, Length: int64(len(body))})
+			for _, rl := range []int{19, 1, 60, 100, 123} {
+				body := ws.NewCloseFrameBody(1001, strings.Repeat("A DIFFERENT REASON! ", 7)[:rl])
+				wsutil.ControlHandler{Src: bytes.NewReader(body), Dst: env.NewDst(), State: ws.StateClientSide}.Handle(ws.Header{Fin: true, OpCode: ws.OpClose, Length: int64(len(body))})
+				ping := bytes.Repeat([]byte{'#'}, rl+2)
+				wsutil.ControlHandler{Src: bytes.NewReader(ping), Dst: env.NewDst(), State: ws.StateClientSide}.Handle(ws.Header{Fin: true, OpCode: ws.OpPing, Length: int64(len(ping))})
+			}
 		}},
 	}
 }
@@ -556,14 +566,26 @@ func main() {
 						return explore.Failf("copying-helper-result-aliases-input", "")
 					}
 					// the same helpers on frames whose header already says masked / not masked
+					// ... and on frames put together by hand, whose Length field was left at zero or says
+					// something else than the payload's length: it is the slice that must stay intact
 					for _, masked := range []bool{false, true} {
-						q := append([]byte{}, orig...)
-						fr := ws.NewBinaryFrame(q)
-						fr.Header.Masked, fr.Header.Mask = masked, [4]byte{5, 6, 7, 8}
-						for hi, helper := range []func(){func() { ws.MaskFrame(fr) }, func() { ws.MaskFrameWith(fr, [4]byte{1, 2, 3, 4}) }, func() { ws.UnmaskFrame(fr) }} {
-							helper()
-							if !bytes.Equal(q, orig) {
-								return explore.Failf(fmt.Sprintf("copying-helper-%d-modified-input:header-masked=%v", hi, masked), "")
+						for _, length := range []int64{int64(n), 0, int64(n) + 1, int64(n) / 2} {
+							q := append([]byte{}, orig...)
+							fr := ws.NewBinaryFrame(q)
+							fr.Header.Length = length
+							fr.Header.Masked, fr.Header.Mask = masked, [4]byte{5, 6, 7, 8}
+							for hi, helper := range []func() ws.Frame{func() ws.Frame { return ws.MaskFrame(fr) }, func() ws.Frame { return ws.MaskFrameWith(fr, [4]byte{1, 2, 3, 4}) }, func() ws.Frame { return ws.UnmaskFrame(fr) }} {
+								var g ws.Frame
+								func() {
+									defer func() { recover() }() // a helper may refuse an inconsistent frame; it may not scribble
+									g = helper()
+								}()
+								if !bytes.Equal(q, orig) {
+									return explore.Failf(fmt.Sprintf("copying-helper-%d-modified-input:header-masked=%v", hi, masked), "Header.Length=%d, payload of %d bytes", length, n)
+								}
+								if n > 0 && len(g.Payload) > 0 && &g.Payload[0] == &q[0] {
+									return explore.Failf(fmt.Sprintf("copying-helper-%d-result-aliases-input:header-masked=%v", hi, masked), "Header.Length=%d, payload of %d bytes", length, n)
+								}
 							}
 						}
 					}
